@@ -269,7 +269,7 @@ func ruleC09_3(c *Ctx, r *Rep) {
 			r.noValueUse(c, "C09.3", w)
 		}
 	}
-	r.Floor("C09.3:hooks", len(hooks), 4)
+	r.Floor("C09.3:hooks", len(hooks), 1) // one shared registration helper is a legitimate shape
 	_ = n
 }
 
